@@ -163,6 +163,13 @@ def main():
     for p in allp:
         for dp in (-10, -5, -1, 0, 1, 5, 10):
             add("betfair", "GBP", True, "BACK", {"k": "L", "p": p * 10 + dp, "s": 2000, "ld": ["CLASSIC"]})
+    # the ends of every ladder, on every run: the first and last ticks and their neighbours on the 0.001 grid
+    for p in (990, 1000, 1005, 1009, 1010, 1011, 1015, 1020, 1030, 999980, 999990, 999995, 1000000, 1000005, 1000010, 1010000):
+        for side in ("BACK", "LAY"):
+            for ladder in ("CLASSIC", "FINEST"):
+                add("betfair", "GBP", True, side, {"k": "L", "p": p, "s": 2000, "ld": [ladder]})
+                add("betfair", "GBP", True, side, {"k": "LOC", "p": p, "l": 2000, "ld": [ladder]})
+            add("betdaq", "GBP", True, side, {"k": "L", "p": p, "s": 2000})
     for _ in range(3000 if thorough else 600):
         p = rng.choice([rng.randrange(900, 100200) * 10 + rng.choice([0, 0, 0, 1, 5]), rng.choice(allp) * 10])
         add("betfair", "GBP", True, rng.choice(["BACK", "LAY"]), {"k": "L", "p": p, "s": rng.choice([2000, 2005, 500, 10000]), "ld": ["FINEST"]})
